@@ -135,12 +135,17 @@ func ruleC16Geometry(cx *Ctx) {
 			w := newDepWalker(false, "MPSC")
 			w.walk(r.Results[0])
 			got := strings.Join(w.keys(), ",")
-			sh, isB := r.Results[0].(*ssa.BinOp)
-			if got != "consumerIndex,producerIndex" || !isB || sh.Op.String() != ">>" {
+			// as a term: (producer - consumer) >> 1, however the halving is spelled (>> 1, / 2)
+			tb := newTermBuilder()
+			allInstrs(sz, func(ld ssa.Instruction) {
+				if v, isV := ld.(ssa.Value); isV && isStdMethod(ld, "sync/atomic", "", "Load") && recvField(ld) != nil {
+					tb.subst[v] = tVar("load:" + fname(recvField(ld)))
+				}
+			})
+			t := tb.of(r.Results[0])
+			if got != "consumerIndex,producerIndex" || t.Op != ">>" || len(t.Args) != 2 || !t.Args[1].isConst() || t.Args[1].C != 1 {
 				okS = false
-			} else if k, isK := constUint(sh.Y); !isK || k != 1 {
-				okS = false
-			} else if d, isD := sh.X.(*ssa.BinOp); !isD || d.Op.String() != "-" || fieldOf(recvValueOf(d.X)) == nil || fname(fieldOf(recvValueOf(d.X))) != "producerIndex" {
+			} else if d := t.Args[0]; d.Op != "-" || len(d.Args) != 2 || d.Args[0].String() != "load:producerIndex" || strings.Contains(d.Args[1].String(), "producerIndex") {
 				okS = false
 			}
 		})
@@ -394,7 +399,8 @@ func ruleC05GetTask(cx *Ctx) {
 	a.flush()
 	cx.R.Check(n >= 1, rule, funcName(gt), "returning paths", cx.P.Pos(gt.Pos()), fmt.Sprintf("%d", n))
 	if pt := cx.need(rule, "", "cache", "putTask"); pt != nil {
-		// every field store before the Put stores a zero value, and all four fields are stored
+		// on every path: all four fields hold a zero value when the object is handed to the pool (the clearing may live
+		// in a helper; decided on the path summaries)
 		fields := map[string]bool{}
 		okZ := true
 		var put ssa.Instruction
@@ -403,24 +409,39 @@ func ruleC05GetTask(cx *Ctx) {
 				put = in
 			}
 		})
-		allInstrs(pt, func(in ssa.Instruction) {
-			st, ok := in.(*ssa.Store)
-			if !ok {
-				return
+		ps2 := newPathSum(cx)
+		np := 0
+		for _, o := range ps2.Run(pt, nil) {
+			if o.Cut || o.Panic {
+				continue
 			}
-			f := fieldOf(st.Addr)
-			if f == nil || structNameOfAddr(st.Addr) != "task" {
-				return
+			np++
+			last := map[string]string{}
+			putSeen := false
+			for _, e := range o.S.trace {
+				switch {
+				case (e.Kind == "FieldStore" || e.Kind == "LitStore") && len(e.Args) == 2 && !putSeen:
+					if k := strings.LastIndex(e.Args[0], "."); k >= 0 {
+						last[e.Args[0][k+1:]] = e.Args[1]
+					}
+				case e.Kind == "PutTask":
+					putSeen = true
+				}
 			}
-			fields[fname(f)] = true
-			zero := isNilConst(st.Val)
-			if c, isC := constInt(stripConv(st.Val)); isC && c == 0 {
-				zero = true
+			cleared := 0
+			for _, f := range []string{"n", "old", "writeReason", "deletionCause"} {
+				if v, ok := last[f]; ok && (v == "nil" || v == "const(0)" || v == "zero") {
+					cleared++
+					fields[f] = true
+				}
 			}
-			if !zero || put == nil || !instrDominates(st, put) {
+			if !putSeen || cleared != 4 {
 				okZ = false
 			}
-		})
+		}
+		if np == 0 {
+			okZ = false
+		}
 		cx.R.Check(okZ && put != nil && len(fields) == 4, rule, funcName(pt), "all fields cleared before Put", cx.P.Pos(pt.Pos()), fmt.Sprintf("cleared %d of 4 fields", len(fields)))
 	}
 }
@@ -674,6 +695,10 @@ func ruleC15SizeCopy(cx *Ctx) {
 						okIdx = true
 					}
 				}
+			}
+			// the same stripe spelled as a remainder: bucketIdx % len(size) (in range for every length)
+			if t.Op == "%" && len(t.Args) == 2 && t.Args[0].Op == "v" && strings.HasPrefix(t.Args[1].String(), "builtin:len(field:size(") {
+				okIdx = true
 			}
 		})
 		cx.R.Check(okIdx && okAmt, rule, "hashmap.(*mapTable)."+n, "adds delta to stripe (len-1) & bucket", cx.P.Pos(fn.Pos()), fmt.Sprintf("index ok %v, amount is the delta %v", okIdx, okAmt))
@@ -1157,7 +1182,41 @@ func ruleXMath(cx *Ctx) {
 				}
 			}
 		})
-		cx.R.Check(okMain && okZero && n == 2, rule, "xmath."+d.name, "bit smear + 1, and 1 for 0", cx.P.Pos(fn.Pos()), "the result is the next power of two >= v")
+		detail := ""
+		if !(okMain && okZero && n == 2) {
+			// any other spelling (loop over the shift, helper shared by the two widths): the function as a decision list
+			paths, bad := symRun(fn, []*Term{tVar("param0")}, 400)
+			detail = bad
+			zero, nonzero, other := 0, 0, 0
+			for _, p := range paths {
+				isZero, known := false, false
+				if len(p.Conds) == 1 && len(p.Conds[0].T.Args) == 2 {
+					c := p.Conds[0]
+					a, b := c.T.Args[0], c.T.Args[1]
+					if a.isConst() {
+						a, b = b, a
+					}
+					if a.String() == "param0" && b.isConst() && b.C == 0 && (c.T.Op == "==" || c.T.Op == "!=") {
+						known, isZero = true, (c.T.Op == "==") == c.Truth
+					}
+				}
+				switch {
+				case known && isZero && len(p.Rets) == 1 && p.Rets[0].isConst() && p.Rets[0].C == 1:
+					zero++
+				case known && !isZero && len(p.Rets) == 1 && p.Rets[0].String() == want:
+					nonzero++
+				default:
+					other++
+					if len(p.Rets) == 1 {
+						detail = "a path returns " + p.Rets[0].String()
+					}
+				}
+			}
+			if bad == "" && zero == 1 && nonzero == 1 && other == 0 {
+				okMain, okZero, n = true, true, 2
+			}
+		}
+		cx.R.Check(okMain && okZero && n == 2, rule, "xmath."+d.name, "bit smear + 1, and 1 for 0", cx.P.Pos(fn.Pos()), "the result is the next power of two >= v "+detail)
 	}
 	if fn := cx.need(rule, "internal/xmath", "", "Abs"); fn != nil {
 		okNeg, okPos, n := false, false, 0
@@ -1285,9 +1344,13 @@ func ruleC05Views(cx *Ctx) {
 					// read through a helper (readPolicy(func)): the helper's results
 					if g := y.Call.StaticCallee(); g != nil && len(origin(g).Blocks) > 0 && strings.HasPrefix(origin(g).Pkg.Pkg.Path(), modPath) {
 						w := newDepWalker(false, "policy")
+						w.intoCallees = true
 						w.walk(y)
 						for _, a := range y.Call.Args {
 							if cl := closureOf(a); cl != nil {
+								if len(cl.Blocks) == 0 && origin(cl) != nil {
+									cl = origin(cl) // a method expression of the generic policy type
+								}
 								allInstrs(cl, func(z ssa.Instruction) {
 									if rr, isRR := z.(*ssa.Return); isRR {
 										for _, res := range rr.Results {
@@ -1331,35 +1394,372 @@ func ruleC08Wait(cx *Ctx) {
 		cx.R.Check(ok, rule, funcName(w), "waits on every path", cx.P.Pos(w.Pos()), "every returning path of wait passed wg.Wait()", wit...)
 	}
 	if c := cx.need(rule, "", "call", "cancel"); c != nil {
-		isDone := func(in ssa.Instruction) int {
-			if isStdMethod(in, "sync", "WaitGroup", "Done") && sameField(recvField(in), wgF) {
-				return 1
-			}
-			return 0
+		isDone := func(in ssa.Instruction) bool {
+			return isStdMethod(in, "sync", "WaitGroup", "Done") && sameField(recvField(in), wgF)
 		}
+		// every acyclic path of cancel: which way the synthetic-record test went on it, and how many releases it made
 		ok := true
 		var wit []string
 		n := 0
-		for _, ex := range CountOnPaths(c, Pt{c.Blocks[0], 0}, isDone, nil) {
-			r, isRet := ex.Exit.(*ssa.Return)
-			if !isRet {
+		var walk func(b *ssa.BasicBlock, onPath map[*ssa.BasicBlock]bool, fake int, done int, trail []string)
+		walk = func(b *ssa.BasicBlock, onPath map[*ssa.BasicBlock]bool, fake int, done int, trail []string) {
+			if onPath[b] || n > 64 {
+				return
+			}
+			onPath[b] = true
+			defer delete(onPath, b)
+			trail = append(trail, blockDesc(b))
+			for _, in := range b.Instrs {
+				if isDone(in) {
+					done++
+				}
+				switch x := in.(type) {
+				case *ssa.Return:
+					n++
+					want := 1
+					if fake == 1 {
+						want = 0
+					}
+					if fake == 0 || done != want {
+						ok, wit = false, append([]string(nil), trail...)
+					}
+				case *ssa.If:
+					cond, neg := stripNot(x.Cond)
+					isTest := false
+					if f := fieldOf(cond); f != nil && fname(f) == "isFake" {
+						isTest = true
+					}
+					for k, s := range b.Succs {
+						fk := fake
+						if isTest {
+							truth := (k == 0) != neg
+							if truth {
+								fk = 1
+							} else {
+								fk = -1
+							}
+						}
+						walk(s, onPath, fk, done, trail)
+					}
+				case *ssa.Jump:
+					walk(b.Succs[0], onPath, fake, done, trail)
+				}
+			}
+		}
+		walk(c.Blocks[0], map[*ssa.BasicBlock]bool{}, 0, 0, nil)
+		cx.R.Check(ok && n > 0, rule, funcName(c), "releases once unless synthetic", cx.P.Pos(c.Pos()), "cancel calls wg.Done() exactly once for a real record and not at all for a synthetic one", wit...)
+	}
+}
+
+// ---------------------------------------------------------------------------------------------------------------
+// C13.findbucket: the level a timer is filed under
+// ---------------------------------------------------------------------------------------------------------------
+
+// ruleC13FindBucket: findBucket walks the levels from the finest one and files the timer under the first level whose
+// next span exceeds the remaining duration (deadline - wheel time), in the slot (deadline >> shift[level]) masked by
+// the level's slot count; only when no level qualifies does the overflow slot wheel[last][0] take it. A timer filed
+// under a coarser level than that is looked at only when that level's (much longer) tick passes - it would outlive its
+// deadline by far more than one tick of the finest level.
+func ruleC13FindBucket(cx *Ctx) {
+	const rule = "C13.findbucket"
+	cx.R.Rule(rule, 2, "findBucket returns wheel[i][(deadline >> shift[i]) & (slots(i)-1)] for the first level i (counting from 0) with deadline - wheelTime < spans[i+1], and wheel[last][0] only when no level qualifies")
+	fn := cx.need(rule, expPkg, "Variable", "findBucket")
+	if fn == nil {
+		return
+	}
+	tb := newTermBuilder()
+	type retInfo struct {
+		r    *ssa.Return
+		t    *Term
+		lvl  *Term
+		slot *Term
+	}
+	var rets []retInfo
+	allInstrs(fn, func(in ssa.Instruction) {
+		r, ok := in.(*ssa.Return)
+		if !ok || len(r.Results) != 1 {
+			return
+		}
+		t := tb.of(r.Results[0])
+		ri := retInfo{r: r, t: t}
+		if t.Op == "index" && len(t.Args) == 2 && t.Args[0].Op == "index" && len(t.Args[0].Args) == 2 && t.Args[0].Args[0].String() == "field:wheel(param0)" {
+			ri.lvl, ri.slot = t.Args[0].Args[1], t.Args[1]
+		}
+		rets = append(rets, ri)
+	})
+	nLevel, nOver := 0, 0
+	for _, ri := range rets {
+		if ri.lvl == nil {
+			cx.R.Check(false, rule, funcName(fn), "result is a slot of the wheel", cx.P.where(ri.r), "findBucket returns a sentinel of the wheel (got "+trunc(ri.t.String(), 80)+")")
+			continue
+		}
+		if strings.HasPrefix(ri.lvl.String(), "phi:") {
+			nLevel++
+			// the guard: duration < spans[level+1] holds
+			okGuard, okDur := false, false
+			for _, g := range guardsAt(ri.r.Block()) {
+				c := tb.of(g.Cond)
+				if len(c.Args) != 2 {
+					continue
+				}
+				l, r, op, truth := c.Args[0], c.Args[1], c.Op, g.Truth
+				if strings.HasPrefix(l.String(), "index(global:spans,") { // spans[i+1] op duration
+					l, r = r, l
+					op = map[string]string{"<": ">", ">": "<", "<=": ">=", ">=": "<="}[op]
+				}
+				if r.String() != mk("index", tVar("global:spans"), mk("+", ri.lvl, tConst(1))).String() {
+					continue
+				}
+				if (op == "<" && truth) || (op == ">=" && !truth) {
+					okGuard = true
+					// duration is deadline - wheel time
+					if l.Op == "-" && len(l.Args) == 2 && l.Args[1].String() == "field:time(param0)" {
+						okDur = true
+					}
+				}
+			}
+			cx.R.Check(okGuard && okDur, rule, funcName(fn), "level chosen iff duration < spans[level+1]", cx.P.where(ri.r), "a level's slot is returned exactly under the test deadline - wheelTime < spans[level+1] for that level")
+			// levels are tried from 0 upwards, one by one, up to the last but one
+			var lvlV ssa.Value
+			allInstrs(fn, func(in ssa.Instruction) {
+				if ph, isPhi := in.(*ssa.Phi); isPhi && tb.of(ph).String() == ri.lvl.String() {
+					lvlV = ph
+				}
+			})
+			okInd := false
+			if lvlV != nil {
+				if _, first, bound, okI := indexInduction(lvlV); okI && first == 0 && bound != nil {
+					bt := newTermBuilder().of(bound).String()
+					okInd = bt == mk("-", mk("builtin:len", tVar("field:wheel(param0)")), tConst(1)).String()
+				}
+			}
+			cx.R.Check(okInd, rule, funcName(fn), "levels tried in order from the finest", cx.P.where(ri.r), "the level runs from 0 up to (not including) the overflow level, one at a time")
+			// the slot
+			sl := ri.slot
+			okSlot := false
+			if sl.Op == "&" && len(sl.Args) == 2 {
+				for k := 0; k < 2; k++ {
+					sh, ms := sl.Args[k], sl.Args[1-k]
+					shOK := sh.Op == ">>" && len(sh.Args) == 2 && sh.Args[1].String() == mk("index", tVar("global:shift"), ri.lvl).String()
+					msOK := ms.String() == mk("-", mk("index", tVar("global:buckets"), ri.lvl), tConst(1)).String() ||
+						ms.String() == mk("-", mk("builtin:len", mk("index", tVar("field:wheel(param0)"), ri.lvl)), tConst(1)).String()
+					if shOK && msOK {
+						okSlot = true
+					}
+				}
+			}
+			cx.R.Check(okSlot, rule, funcName(fn), "slot = (deadline >> shift[level]) & (slots-1)", cx.P.where(ri.r), "the slot inside the level is the deadline's tick of that level modulo the level's slot count (got "+trunc(sl.String(), 100)+")")
+			continue
+		}
+		nOver++
+		okO := ri.lvl.String() == mk("-", mk("builtin:len", tVar("field:wheel(param0)")), tConst(1)).String() && ri.slot.isConst() && ri.slot.C == 0
+		// ... and only after every level was refused: the return is not reachable with a level test still open, i.e. it
+		// is outside the loop - the loop header dominates it and it does not reach the header again
+		cx.R.Check(okO, rule, funcName(fn), "overflow slot", cx.P.where(ri.r), "the fallback is wheel[last][0] (got "+trunc(ri.t.String(), 80)+")")
+	}
+	cx.R.Check(nLevel >= 1 && nOver == 1, rule, funcName(fn), "one level return, one overflow return", cx.P.Pos(fn.Pos()), fmt.Sprintf("%d level return(s), %d overflow return(s)", nLevel, nOver))
+}
+
+// ---------------------------------------------------------------------------------------------------------------
+// C17.drainall: the striped buffer's drain visits every ring
+// ---------------------------------------------------------------------------------------------------------------
+
+// ruleC17DrainAll: Striped.DrainTo hands its consumer to the drain of every ring of the current stripe table: the ring
+// index runs over 0..len-1 one by one, the drain of ring i is skipped only when that ring is not allocated yet, and the
+// function returns early only when there is no stripe table at all. A ring the drain skips keeps its recorded reads
+// until it overflows - they are never delivered.
+func ruleC17DrainAll(cx *Ctx) {
+	const rule = "C17.drainall"
+	cx.R.Rule(rule, 2, "Striped.DrainTo calls ring.drainTo(consumer) for every allocated ring i in 0..len-1 of the stripe table it loaded, skipping only nil rings, and returns without draining only when there is no stripe table")
+	fn := cx.need(rule, lossyPkg, "Striped", "DrainTo")
+	rd := cx.need(rule, lossyPkg, "ring", "drainTo")
+	if fn == nil || rd == nil {
+		return
+	}
+	bufF := cx.P.Field(lossyPkg, "striped", "buffers")
+	lenF := cx.P.Field(lossyPkg, "striped", "len")
+	stripedF := cx.P.Field(lossyPkg, "Striped", "striped")
+	// the stripe table: a load of s.striped
+	isTable := func(v ssa.Value) bool {
+		c, ok := stripConv(v).(*ssa.Call)
+		return ok && isStdMethod(c, "sync/atomic", "Pointer", "Load") && sameField(recvField(c), stripedF)
+	}
+	n := 0
+	allInstrs(fn, func(in ssa.Instruction) {
+		if !isCallTo(in, rd) {
+			return
+		}
+		n++
+		// receiver: the ring loaded from buffers[i] of the table
+		ring := recvValue(in)
+		var idx ssa.Value
+		okRecv := false
+		if ld, isC := ring.(*ssa.Call); isC && isStdMethod(ld, "sync/atomic", "Pointer", "Load") {
+			if ia, isIA := recvValue(ld).(*ssa.IndexAddr); isIA && sameField(fieldOf(ia.X), bufF) {
+				if fa, isFA := stripLoad(ia.X).(*ssa.FieldAddr); isFA && isTable(fa.X) {
+					idx, okRecv = ia.Index, true
+				}
+			}
+		}
+		cx.R.Check(okRecv, rule, funcName(fn), fmt.Sprintf("drain #%d receiver", n), cx.P.where(in), "the drained ring is buffers[i] of the stripe table loaded from the buffer")
+		a := callArgs(in)
+		cx.R.Check(len(a) == 1 && a[0] == ssa.Value(bparam(fn, 1)), rule, funcName(fn), fmt.Sprintf("drain #%d consumer", n), cx.P.where(in), "the ring is drained into DrainTo's own consumer")
+		if !okRecv {
+			return
+		}
+		// the index visits 0..len-1
+		okInd := false
+		if _, first, bound, okI := indexInduction(idx); okI && first == 0 && bound != nil {
+			if sameField(fieldOf(bound), lenF) {
+				okInd = true
+			}
+			if c, isC := bound.(*ssa.Call); isC && isBuiltinCall(c, "len") && sameField(fieldOf(c.Call.Args[0]), bufF) {
+				okInd = true
+			}
+		}
+		cx.R.Check(okInd, rule, funcName(fn), fmt.Sprintf("drain #%d visits every ring", n), cx.P.where(in), "the ring index runs from 0 to the stripe table's length, one at a time")
+		// nothing but "this ring is nil", "no table", and the loop's own bound stands between entry and the drain
+		bad := ""
+		for _, g := range guardsAt(in.Block()) {
+			if x, _, isNil := nilCmp(g.Cond); isNil && (x == ring || isTable(x)) {
+				continue
+			}
+			if b, isB := g.Cond.(*ssa.BinOp); isB && (b.X == idx || b.Y == idx) {
+				continue
+			}
+			bad = newTermBuilder().of(g.Cond).String() + " at " + cx.P.where(g.If)
+		}
+		cx.R.Check(bad == "", rule, funcName(fn), fmt.Sprintf("drain #%d unconditional", n), cx.P.where(in), "a ring's drain is skipped only when the ring is nil "+bad)
+	})
+	cx.R.Check(n >= 1, rule, funcName(fn), "rings are drained", cx.P.Pos(fn.Pos()), fmt.Sprintf("%d drain call(s)", n))
+	// returns: before the loop only when there is no table
+	allInstrs(fn, func(in ssa.Instruction) {
+		r, ok := in.(*ssa.Return)
+		if !ok {
+			return
+		}
+		bad := ""
+		for _, g := range guardsAt(r.Block()) {
+			if x, isEq, isNil := nilCmp(g.Cond); isNil && isTable(x) {
+				_ = isEq
+				continue
+			}
+			if b, isB := g.Cond.(*ssa.BinOp); isB {
+				if _, _, _, okI := indexInduction(b.X); okI && !g.Truth {
+					continue // the loop ran to its end
+				}
+				if _, _, _, okI := indexInduction(b.Y); okI {
+					continue
+				}
+			}
+			bad = newTermBuilder().of(g.Cond).String() + " at " + cx.P.where(g.If)
+		}
+		cx.R.Check(bad == "", rule, funcName(fn), "returns", cx.P.where(r), "DrainTo returns early only when no stripe table exists "+bad)
+	})
+}
+
+// ---------------------------------------------------------------------------------------------------------------
+// C05.polunlink: a deleted node leaves its queue and its weight leaves the counters; a replacement inherits the queue
+// ---------------------------------------------------------------------------------------------------------------
+
+// queueOfPath: the queue the node is in according to the path's predicates ("" when they do not decide it).
+func queueOfPath(o *psOutcome, n string) string {
+	preds := []struct{ atom, q string }{{"InWindow(" + n + ")", "window"}, {"InMainProbation(" + n + ")", "probation"}, {"InMainProtected(" + n + ")", "protected"}}
+	var falses []string
+	for _, p := range preds {
+		if v, k := predOf(o, p.atom); k {
+			if v {
+				return p.q
+			}
+			falses = append(falses, p.q)
+		}
+	}
+	if len(falses) == 2 {
+		for _, p := range preds {
+			if p.q != falses[0] && p.q != falses[1] {
+				return p.q
+			}
+		}
+	}
+	return ""
+}
+
+func ruleC05PolUnlink(cx *Ctx) {
+	const rule = "C05.polunlink"
+	cx.R.Rule(rule, 2, "policy.delete unlinks the node from the queue its queue type names and then releases its weight (makeDead), on every path; policy.updateNode gives the replacement the old node's queue type first, swaps it into that queue at the old node's position (or enters it as a fresh window node when the old one was never linked) and releases the old node once")
+	if r := cx.runOp(rule, polSpec("delete", "delete")); r != nil {
+		a := newAgg(cx, rule, funcName(r.fn), cx.P.Pos(r.fn.Pos()))
+		n := 0
+		for _, o := range r.outs {
+			if o.Cut || o.Panic {
 				continue
 			}
 			n++
-			fake := false
-			for _, g := range guardsAt(r.Block()) {
-				if f := fieldOf(g.Cond); f != nil && fname(f) == "isFake" && g.Truth {
-					fake = true
+			want := queueOfPath(o, "param:n")
+			dels, delAt, mdAt, md := 0, -1, -1, 0
+			okQ := false
+			for i, e := range o.S.trace {
+				if q, nd, ok := dequeCall(e, "Delete"); ok {
+					dels++
+					delAt = i
+					okQ = q == want && nd == "param:n"
+				}
+				if e.Kind == "PolicyMakeDead" && len(e.Args) > 0 && e.Args[0] == "param:n" {
+					md++
+					mdAt = i
 				}
 			}
-			want := 1
-			if fake {
-				want = 0
-			}
-			if ex.Count != want {
-				ok, wit = false, ex.Witness
-			}
+			a.check("unlinked from its own queue", dels == 1 && okQ && want != "", "the node is removed from the queue its queue type names, once", fmt.Sprintf("%d unlink(s), queue by predicates %q", dels, want), o)
+			a.check("weight released after the unlink", md == 1 && mdAt > delAt, "makeDead(n) runs once, after the unlink", fmt.Sprintf("%d makeDead", md), o)
 		}
-		cx.R.Check(ok && n > 0, rule, funcName(c), "releases once unless synthetic", cx.P.Pos(c.Pos()), "cancel calls wg.Done() exactly once for a real record and not at all for a synthetic one", wit...)
+		a.flush()
+		cx.R.Check(n >= 3, rule, funcName(r.fn), "one path per queue", cx.P.Pos(r.fn.Pos()), fmt.Sprintf("%d returning path(s)", n))
+	}
+	if r := cx.runOp(rule, polSpec("updateNode", "updateNode")); r != nil {
+		a := newAgg(cx, rule, funcName(r.fn), cx.P.Pos(r.fn.Pos()))
+		n := 0
+		for _, o := range r.outs {
+			if o.Cut || o.Panic {
+				continue
+			}
+			n++
+			inherit, firstQueueOp := -1, -1
+			var contains, swapped, pushed, md int
+			containsQ, swapQ, pushQ := "", "", ""
+			madeWindow := false
+			for i, e := range o.S.trace {
+				if e.Kind == "NodeQueue" && len(e.Args) == 3 && e.Args[0] == "param:n" && e.Args[1] == "SetQueueType" && e.Args[2] == "GetQueueType(param:old)" && inherit < 0 {
+					inherit = i
+				}
+				if e.Kind == "NodeQueue" && len(e.Args) >= 2 && e.Args[0] == "param:n" && e.Args[1] == "MakeWindow" {
+					madeWindow = true
+				}
+				if e.Kind == "Call" && strings.Contains(e.Args[0], "(*Linked).") && firstQueueOp < 0 {
+					firstQueueOp = i
+				}
+				if q, nd, ok := dequeCall(e, "Contains"); ok && nd == "param:old" {
+					contains++
+					containsQ = q
+				}
+				if q, nd, ok := dequeCall(e, "UpdateNode"); ok && nd == "param:n" {
+					swapped++
+					swapQ = q
+				}
+				if q, nd, ok := dequeCall(e, "PushBack"); ok && nd == "param:n" {
+					pushed++
+					pushQ = q
+				}
+				if e.Kind == "PolicyMakeDead" && len(e.Args) > 0 && e.Args[0] == "param:old" {
+					md++
+				}
+			}
+			want := queueOfPath(o, "param:n")
+			a.check("queue type inherited first", inherit >= 0 && (firstQueueOp < 0 || inherit < firstQueueOp), "n.SetQueueType(old.GetQueueType()) runs before any queue is consulted", "", o)
+			okPlace := (swapped == 1 && pushed == 0 && swapQ == want && containsQ == want && want != "") || (swapped == 0 && pushed == 1 && pushQ == "window" && madeWindow && contains >= 1 && containsQ == want)
+			a.check("takes the old node's place", okPlace, "the replacement is swapped into the queue of its inherited type at the old node's position, or enters the window as a fresh node when the old node is not linked there", fmt.Sprintf("swapped %d (%s) pushed %d (%s) queue by predicates %q", swapped, swapQ, pushed, pushQ, want), o)
+			a.check("old node released once", md == 1, "makeDead(old) runs exactly once", fmt.Sprintf("%d", md), o)
+		}
+		a.flush()
+		cx.R.Check(n >= 3, rule, funcName(r.fn), "returning paths", cx.P.Pos(r.fn.Pos()), fmt.Sprintf("%d", n))
 	}
 }
